@@ -1,8 +1,9 @@
 #!/usr/bin/env python3
 """First-class heap layer correspondence (property C10, sequential part).
 
-run_on_outputs(res, outputs) -> stats
+run_on_outputs(res, outputs, exe=None, own_traces=True) -> stats
     outputs: dict  trace path -> stdout text of a harness/t_api.c run (with page dumps on).
+    With own_traces the full_trace traces (below) are generated and run too, on `exe` (default build/t_api).
     Replays the heap dumps (HQ / HOP lines) against the extracted Coq model (ocaml mode "heap",
     coq/Model/Heap.v): Heap.heap_inv_b on every dump, and on every mi_heap_delete / mi_heap_destroy the
     after-dump must be exactly Heap.heap_delete / Heap.heap_destroy of the before-dump (see
@@ -124,12 +125,56 @@ def full_trace(seed, rounds=6):
     return lines
 
 
-def run_on_outputs(res, outputs):
+def extra_outputs(res, exe, seed, tier="quick"):
+    """run full_trace traces (pages in the FULL queue of the deleted / destroyed heap, descriptor page retired or
+    unfulled) on the harness `exe`; oracle violations of the C10 kinds are reported with the trace as witness.
+    returns {trace path: stdout}"""
+    import apitrace
+    thorough = (tier == "thorough")
+    tdir = os.path.join(vlib.BUILD, "traces", "heapmodel_%s" % res.pid)
+    os.makedirs(tdir, exist_ok=True)
+    outs = {}
+    kinds = apitrace.KINDS["C10"]
+    jobs = []
+    for i in range(10 if thorough else 4):
+        sd = seed * 1000 + i
+        lines = full_trace(sd, 8 if thorough else 5)
+        path = os.path.join(tdir, "heapfull_%d.trace" % sd)
+        open(path, "w").write("\n".join(lines) + "\n")
+        jobs.append((path, lines))
+    with concurrent.futures.ThreadPoolExecutor(max_workers=int(vlib.JOBS)) as ex:
+        results = list(ex.map(lambda j: apitrace.run_one(exe, j[0], True, 300), jobs))
+    for (path, lines), (rc, out, err) in zip(jobs, results):
+        v, ended = apitrace.parse(rc, out)
+        outs[path] = out
+        seen = set()
+        for op, kind, text in v:
+            if kind in kinds and kind not in seen:
+                seen.add(kind)
+                res.violation("impl:" + kind, "%s (trace %s, op %d): %s" % (kind, os.path.basename(path), op, text),
+                              witness="# trace for harness/t_api.c (replay: tools/check C10 --replay <this file>)\n# oracle: %s %s\n%s" % (kind, text, "\n".join(lines[:op + 2] if kind != "crash" else lines)),
+                              replay_name="C10_%s_%s" % (kind, os.path.basename(path)))
+        res.cov["traces_validated_against_impl"] = res.cov.get("traces_validated_against_impl", 0) + 1
+        res.cov["evaluations"] = res.cov.get("evaluations", 0) + len(lines)
+    d = res.cov.setdefault("input_distribution", {})
+    d["heapfull_traces"] = len(jobs)
+    d["heapfull_ops"] = sum(len(l) for _, l in jobs)
+    return outs
+
+
+def run_on_outputs(res, outputs, exe=None, own_traces=True):
+    """outputs: {trace path: stdout of t_api}.  With own_traces (default) the full_trace traces are run as well on
+    `exe` (default: build/t_api, which the caller has just built from the current tree)."""
     stats = collections.Counter()
     okb, txt = vlib.ocaml_build()
     if not okb:
         res.violation("model-build", "extracted model does not build: " + txt[-1200:])
         return dict(stats)
+    outputs = dict(outputs)
+    if own_traces:
+        exe = exe or os.path.join(vlib.BUILD, "t_api")
+        if os.path.exists(exe):
+            outputs.update(extra_outputs(res, exe, getattr(res, "seed", 1), getattr(res, "tier", "quick")))
     mism = []
 
     def rp(path):
@@ -162,36 +207,15 @@ def run_on_outputs(res, outputs):
 
 
 def run(res, seed, tier="quick", name="t_api"):
+    """stand-alone driver: build the harness, gen_trace `heaps` traces + full_trace traces, oracles + model replay"""
     import apitrace, gen_trace
     exe = apitrace.build(res, name=name)
     if exe is None:
         return {}
     thorough = (tier == "thorough")
-    tdir = os.path.join(vlib.BUILD, "traces", "heapmodel_%s" % res.pid)
-    os.makedirs(tdir, exist_ok=True)
-    jobs = []
-    for i in range(12 if thorough else 4):
-        s = seed * 1000 + i
-        jobs.append(("heaps_%d" % s, gen_trace.make_trace("heaps", s, 600 if thorough else 300)))
-    for i in range(10 if thorough else 4):
-        s = seed * 1000 + i
-        jobs.append(("heapfull_%d" % s, full_trace(s, 8 if thorough else 5)))
-    outputs = {}
-    kinds = apitrace.KINDS["C10"]
-    for name, lines in jobs:
-        path = os.path.join(tdir, name + ".trace")
-        open(path, "w").write("\n".join(lines) + "\n")
-        rc, out, err = apitrace.run_one(exe, path, dump=True, timeout=300)
-        v, ended = apitrace.parse(rc, out)
-        outputs[path] = out
-        seen = set()
-        for op, kind, text in v:
-            if kind in kinds and kind not in seen:
-                seen.add(kind)
-                res.violation("impl:" + kind, "%s (trace %s, op %d): %s" % (kind, name, op, text),
-                              witness="# trace for harness/t_api.c\n" + "\n".join(lines[:op + 2]), replay_name="C10_%s_%s.trace" % (kind, name))
-        res.cov["traces_validated_against_impl"] = res.cov.get("traces_validated_against_impl", 0) + 1
-    return run_on_outputs(res, outputs)
+    outs = {}
+    apitrace.run_traces(res, "C10", [("heaps", 12 if thorough else 4, 600 if thorough else 300)], seed, dump=True, exe=exe, keep_outputs=outs)
+    return run_on_outputs(res, outs, exe=exe)
 
 
 if __name__ == "__main__":
